@@ -24,6 +24,14 @@ def small_collection(S, kinds=("coding", "noncoding", "feature")):
         if kind == "feature":
             f = S.new(FEATURE, [s], [e], strand, feature_id=f"f{j}")
             kids.append(S.new(FCOL, [f], feature_collection_id="fc"))
+        elif kind == "split":
+            # a gene whose two isoforms lie apart (possibly in different bins, none spanning the gene): the gene's
+            # span [s, e) includes the stretch between them, which no isoform covers
+            m1, m2 = S.int(f"m1_{j}"), S.int(f"m2_{j}")
+            S.assume(And(s < m1, m1 <= m2, m2 < e))
+            t1 = S.new(TRANSCRIPT, [s], [m1], strand, transcript_id=f"tx{j}a")
+            t2 = S.new(TRANSCRIPT, [m2], [e], strand, transcript_id=f"tx{j}b")
+            kids.append(S.new(GENE, [t1, t2], gene_id=f"g{j}"))
         elif kind == "mixed":
             # a gene with a non-coding isoform (possibly flagged primary) next to a coding one: the gene is coding
             nc = S.new(TRANSCRIPT, [s], [e], strand, transcript_id=f"tx{j}n", is_primary_tx=S.bool(f"primary{j}"))
@@ -49,6 +57,12 @@ def sample_collection(rng, n=3):
         s = rng.choice([0, 1, 3, 6, 131070, 131072])
         d[f"s{j}"], d[f"e{j}"] = s, s + rng.choice([1, 2, 4, 131073])
         d[f"primary{j}"] = rng.random() < 0.5
+        ln = d[f"e{j}"] - s
+        d[f"m1_{j}"] = s + max(1, ln // 3)
+        d[f"m2_{j}"] = max(d[f"m1_{j}"], d[f"e{j}"] - max(1, ln // 3))
+        if not (s < d[f"m1_{j}"] <= d[f"m2_{j}"] < d[f"e{j}"]):
+            d[f"e{j}"] = s + 3
+            d[f"m1_{j}"], d[f"m2_{j}"] = s + 1, s + 2
     return d
 
 
@@ -65,6 +79,7 @@ class QueryByPosition(Case):
     def __init__(self, cw, kinds):
         self.cw, self.kinds = cw, kinds
         self.tier = "thorough" if len(kinds) >= 3 else "quick"
+        self.shard_depth = 4
         self.name = f"AnnotationCollection._query_by_position[completely_within={cw}, children={','.join(kinds)}]"
         self.call = f"col._query_by_position(start, end, {cw}, coding_only)"
         gi = [j for j, k in enumerate(kinds) if k != "feature"]
@@ -153,4 +168,5 @@ ChildrenOrder.tier = "thorough"
 K3 = ("coding", "noncoding", "feature")
 CASES = [QueryByPosition(True, ("coding", "feature")), QueryByPosition(False, ("coding", "feature")),
          QueryByPosition(True, ("noncoding", "coding")), QueryByPosition(False, ("mixed", "noncoding")),
-         QueryByPosition(True, K3), QueryByPosition(False, K3), QueryValidation(), ChildrenOrder()]
+         QueryByPosition(True, K3), QueryByPosition(False, K3), QueryValidation(), ChildrenOrder(),
+         QueryByPosition(False, ("split", "feature")), QueryByPosition(True, ("split", "feature"))]
